@@ -340,7 +340,7 @@ func (b *builder) build(s *Shape, c bctx) reflect.Value {
 			}
 		}
 		v.Set(sl)
-	case KTMap:
+	case KTMap, KNTMap:
 		m := reflect.MakeMapWithSize(t, len(s.Kids))
 		for i, k := range s.Kids {
 			cc := sub(c, "["+s.Keys[i]+"]", "tmap")
